@@ -972,3 +972,32 @@ def empty_table(cx, qual):
           detail='' if ok else 'empty table: %s; otherwise: %s' % ({k: v[0] for k, v in E.items()}, {k: v[0] for k, v in N.items()}),
           key='empty-returns')
     return fn
+
+
+def beads_stats_table(cx):
+    """Beads sheet: detector voltage, amplifier type and the fitted model of each calibrated channel; the model
+    columns of a channel come from the entries at the position of THAT channel among the calibrated channels of
+    the row (and stay empty when the channel was not calibrated)."""
+    fn = Fn(cx, 'excel_ui.add_beads_stats')
+    tbl, smp, mo = fn.params[0], fn.params[1], fn.params[2]
+    items = [
+        ('columns are filled only where MEF values are given', 'if pd.notnull(%s[H][R]):' % tbl),
+        ('detector voltage of the beads sample for the channel', "%s.at[R, C + ' Detector Volt.'] = %s[R].detector_voltage(C)" % (tbl, smp)),
+        ('amplifier type: Log iff the number of decades is non-zero', "AT = 'Log' if %s[R].amplification_type(C)[0] else 'Linear'" % smp),
+        ('amplifier type column', "%s.at[R, C + ' Amp. Type'] = AT" % tbl),
+        ('model columns only when calibration outputs are given', 'if %s:' % mo),
+        ('position of the channel among the calibrated channels of the row', 'MI = %s[R].mef_channels.index(C)' % mo),
+        ('model string of that position', "BMS = %s[R].fitting['beads_model_str'][MI]" % mo),
+        ('model column', "%s.at[R, C + ' Beads Model'] = BMS" % tbl),
+        ('parameter names of that position', "PN = %s[R].fitting['beads_params_names'][MI]" % mo),
+        ('parameter names joined', "PNS = ', '.join([str(P1) for P1 in PN])"),
+        ('parameter names column', "%s.at[R, C + ' Beads Params. Names'] = PNS" % tbl),
+        ('parameter values of that position', "PV = %s[R].fitting['beads_params'][MI]" % mo),
+        ('parameter values joined', "PVS = ', '.join([str(P2) for P2 in PV])"),
+        ('parameter values column', "%s.at[R, C + ' Beads Params. Values'] = PVS" % tbl),
+    ]
+    metas = {m: m for m in ['H', 'R', 'C', 'AT', 'MI', 'BMS', 'PN', 'PNS', 'PV', 'PVS']}
+    metas['P1'] = 'P'
+    metas['P2'] = 'P'
+    inventory(fn, 'TABLE', items, metas)
+    return fn
